@@ -114,8 +114,8 @@ Proof.
   destruct (nx_node G u) as [mine|]; [|apply keeps_refl].
   destruct (nx_node G v) as [other|]; [|apply keeps_refl].
   destruct pol as [p|]; simpl.
-  - destruct (merge_props p mine other mine); simpl;
-      (eapply keeps_trans; [apply keeps_set_node | apply keeps_contract]).
+  - destruct (merge_props p mine other mine); simpl; [|apply keeps_refl].
+    eapply keeps_trans; [apply keeps_set_node | apply keeps_contract].
   - eapply keeps_trans; [apply keeps_set_node | apply keeps_contract].
 Qed.
 
